@@ -30,9 +30,25 @@ def limits(case):
     raise ValueError(rule)
 
 
+def known_finding(case, kind, detail):
+    if "Err(EType)" in str(detail) and case.get("family") == "scores:None+ranking" and \
+            any(b.get("r") and b.get("s") for b in case["profile"]["ballots"]):
+        return "score-rule-mixed-ballot-typeerror"
+    return None
+
+
 def gen_cases(rng, tier):
     n = 700 if tier == "quick" else 9000
-    return ruleslib.gen_rule_cases(rng, n, rule_pool=ruleslib.SCORE_RULES)
+    cases = ruleslib.gen_rule_cases(rng, n, rule_pool=ruleslib.SCORE_RULES)
+    # score ballots that also carry a ranking (Ballot allows both; every score rule accepts them)
+    for c in cases:
+        if c.get("family") == "scores:None" and rng.random() < 0.08:
+            names = sorted({x for b in c["profile"]["ballots"] for x in (b.get("s") or {})} | set(c["profile"].get("cands") or []))
+            for b in c["profile"]["ballots"]:
+                if b.get("s") and not b.get("r") and rng.random() < 0.6:
+                    b["r"] = [[x] for x in rng.sample(names, rng.randint(1, len(names)))]
+            c["family"] = "scores:None+ranking"
+    return cases
 
 
 def run_case(case):
@@ -78,5 +94,5 @@ def run_case(case):
         if got != totals:
             oracle.append("totals differ from the sum over ballots of weight x score")
         oracle += ref.check_top_m(st1.elected, st1.remaining, got, m, st1.tiebreaks)
-    nontrivial = case.get("family", "") != "scores:None" or sum(1 for v in totals.values() if v > 0) >= 2
+    nontrivial = case.get("family", "") not in ("scores:None", "scores:None+ranking") or sum(1 for v in totals.values() if v > 0) >= 2
     return {"model": [mc] if mc else [], "oracle": oracle, "tags": tags, "nontrivial": nontrivial}
